@@ -16,21 +16,23 @@ from __future__ import annotations
 import json
 import os
 import shutil
+import time
 import stat
 from typing import Any, Callable, Dict, List, Optional, Sequence, Tuple
 
-from . import pathfs
+from . import bounded, pathfs
 from .pathfs import Audit, kernel_target, under
 
 
 class Workspace:
     """<ws>/wh/tbl (root), <ws>/wh/lnroot -> tbl, <ws>/wh/tbl2, <ws>/out; rebuilt on demand."""
 
-    def __init__(self, ws: str, with_table: bool = False):
+    def __init__(self, ws: str, with_table: bool = False, spec_fn: Optional[Callable[[str], pathfs.Spec]] = None):
         self.ws = os.path.realpath(ws) if os.path.exists(ws) else ws
         os.makedirs(self.ws, exist_ok=True)
         self.ws = os.path.realpath(self.ws)
-        self.spec = pathfs.standard_spec(self.ws)
+        self.spec = (spec_fn or pathfs.standard_spec)(self.ws)
+        self.arrangement = (spec_fn or pathfs.standard_spec).__name__
         self.root = os.path.join(self.ws, "wh", pathfs.ROOT_NAME)
         self.lnroot = os.path.join(self.ws, "wh", "lnroot")
         self.with_table = with_table
@@ -62,8 +64,14 @@ class Workspace:
         from datashard import create_table
         from datashard.data_structures import Schema
         schema = Schema(schema_id=1, fields=[{"id": 1, "name": "k", "type": "long", "required": False}])
-        t = create_table(self.root, schema)
-        t.append_records([{"k": 1}, {"k": 2}])
+        def build() -> None:
+            t = create_table(self.root, schema)
+            t.append_records([{"k": 1}, {"k": 2}])
+        status, val = bounded.get_guard().run("fixture: create_table + append_records", {"root": self.root}, build, soft_s=60)
+        if status == "runaway":
+            raise RuntimeError(f"building the fixture table did not finish: {val}")
+        if status == "raised":
+            raise val
 
     def _snapshot_root(self) -> List[Tuple[str, str, Any, int]]:
         snap = []
@@ -258,15 +266,20 @@ def run_case(wsp: Workspace, judge: Judge, audit: Audit, entry: str, fn: Callabl
     problems = [pr for pr in problems if pr["rule"] not in ignore_rules]
     if problems and call is not None:
         rules = {pr["rule"] for pr in problems}
+        if rules != {"runaway"}:
+            rules.discard("runaway")       # each runaway candidate costs a full time limit: shrink on the cheap symptoms
         best, best_problems = p, problems
         improved = True
-        while improved:
+        t_end = time.monotonic() + 12.0
+        while improved and time.monotonic() < t_end:
             improved = False
             comps = best.split("/")
             for i in range(len(comps)):
                 cand = "/".join(comps[:i] + comps[i + 1:])
                 if cand == best or (not cand and len(comps) == 1):
                     continue
+                if time.monotonic() > t_end:
+                    break
                 _o, prs = _run_case(wsp, judge, audit, entry, call(cand), cand, base_kind, absolute_capable)
                 prs = [pr for pr in prs if pr["rule"] in rules]
                 if prs:
@@ -283,22 +296,45 @@ def run_case(wsp: Workspace, judge: Judge, audit: Audit, entry: str, fn: Callabl
 def _run_case(wsp: Workspace, judge: Judge, audit: Audit, entry: str, fn: Callable[[], Any], p: str, base_kind: str,
               absolute_capable: bool) -> Tuple[str, List[Dict[str, Any]]]:
     esc = judge.escapes(p, absolute_capable)
-    res, exc, events = audit.record(fn)
-    outcome = classify_exc(exc)
+    case = {"entry": entry, "path": p, "base": base_kind, "workspace": wsp.ws, "arrangement": wsp.arrangement}
+    status, val = bounded.get_guard().run(f"{entry}({p!r})", case, lambda: audit.record(fn))
     problems: List[Dict[str, Any]] = []
+    if status == "runaway":
+        # the library did not come back within its time / memory limit: that IS the outcome
+        audit.on = False
+        res, exc, events = None, None, list(audit.events)
+        audit.last = (None, None, events)
+        outcome = "runaway"
+        problems.append({"rule": "runaway", "entry": entry, "path": p, "base": base_kind, "outcome": outcome, "why": val,
+                         "os_calls_before_the_limit": len(events)})
+    else:
+        res, exc, events = val
+        outcome = classify_exc(exc)
     bad = judge.touches_outside(events)
     if bad:
         problems.append({"rule": "touch", "entry": entry, "path": p, "base": base_kind, "outcome": outcome, "touched": bad[:4]})
+    if entry.startswith("list_files") and isinstance(res, list):
+        # what a listing RETURNS: every name, joined to the root, must be an entry under the root
+        foreign = []
+        for r in res:
+            loc = kernel_target(os.path.join(wsp.root, r), follow=False) if isinstance(r, str) else None
+            if loc is None or not under(wsp.root, loc):
+                foreign.append({"returned": r, "kernel_location": loc})
+        if foreign:
+            problems.append({"rule": "listed", "entry": entry, "path": p, "base": base_kind, "outcome": outcome, "foreign": foreign[:4]})
     after = wsp.outside_stat()
-    if after != wsp.pristine_outside:
-        problems.append({"rule": "sentinel", "entry": entry, "path": p, "base": base_kind, "outcome": outcome,
-                         "changed": pathfs.fingerprint_diff(wsp.pristine_outside, after)[:4]})
+    if after != wsp.pristine_outside or status == "runaway":
+        if after != wsp.pristine_outside:
+            problems.append({"rule": "sentinel", "entry": entry, "path": p, "base": base_kind, "outcome": outcome,
+                             "changed": pathfs.fingerprint_diff(wsp.pristine_outside, after)[:4]})
         wsp.rebuild_all()
     elif wsp.inside_dirty():
         wsp.rebuild_root()
-    if esc and exc is None:
+    if esc and exc is None and status != "runaway":
         problems.append({"rule": "reject", "entry": entry, "path": p, "base": base_kind, "outcome": outcome,
                          "result": repr(res)[:120]})
+    for pr in problems:
+        pr["arrangement"] = wsp.arrangement
     return outcome, problems
 
 
